@@ -5,5 +5,6 @@ INVARIANT SupInv
 INVARIANT StepProps
 INVARIANT Absorbing
 INVARIANT StaysHalted
+INVARIANT AbstractsToCore
 INVARIANT Emit
 CHECK_DEADLOCK FALSE
